@@ -182,7 +182,7 @@ def check_case(ctx, case):
                 ctx.count("crossover_split_checks")
                 if not ok2:
                     ctx.fail("CambridgeSampler: bloc sizes are not consistent with a Huntington-Hill apportionment of the voter types",
-                             case, {"types": v, "bloc_sizes": pooled}, mech=classify_hh(v, split, N))
+                             case, {"types": v, "bloc_sizes": pooled}, mech=classify_hh(v, split, N, pooled=True))
                     return
         else:
             ctx.count("hh_checks")
@@ -242,9 +242,13 @@ def check_case(ctx, case):
             # a zero-probability candidate can never be placed above... (nothing to check structurally)
 
 
-def classify_hh(v, a, N):
-    """apportionment anomaly of the library VoteKit delegates to: a zero-proportion type receives ballots"""
-    if any(v[i] == 0 and a[i] > 0 for i in range(len(v))):
+def classify_hh(v, a, N, pooled=False):
+    """apportionment anomaly of the library VoteKit delegates to: a zero-proportion type receives ballots.
+    pooled=True (CambridgeSampler): the per-type counts are not observable from outside, only the input
+    condition under which the anomaly occurs is: fewer ballots than voter types and a type of proportion 0."""
+    if not pooled and any(v[i] == 0 and a[i] > 0 for i in range(len(v))):
+        return "apportion-zero-type"
+    if pooled and N < len(v) and any(x == 0 for x in v):
         return "apportion-zero-type"
     return None
 
@@ -278,7 +282,7 @@ def single_state(model, p):
 
 
 def run(ctx):
-    for i in range(ctx.n(2400, 40000)):
+    for i in range(ctx.n(8000, 80000)):
         if ctx.expired():
             break
         ctx.guard("check", check_case, ctx, gen_case(ctx.rnd, i + ctx.shard, not ctx.quick))
